@@ -820,6 +820,31 @@ impl TermGen {
                         out.push(block(vec![let_(p.clone(), s.clone(), r.clone())], Some(b.clone())));
                     }
                 }
+                // above depth 1: compound bodies evaluated *under* the new binding (calls, jets, matches ... whose
+                // variable references must now denote the shadowing binding)
+                if d >= 1 && !shadow_at_other_type && binds.iter().any(|(n, _)| *n == shadow) {
+                    let compound_bodies: Vec<Expr> = self
+                        .terms(ty, d)
+                        .into_iter()
+                        .filter(|b| !matches!(b, Expr::Var(_) | Expr::Lit(_)))
+                        .filter(|b| {
+                            let mut fv = BTreeSet::new();
+                            free_vars(b, &mut vec![], &mut fv);
+                            fv.contains(&shadow)
+                        })
+                        .collect();
+                    // all calls of custom functions / jets whose arguments are plain variables (argument forwarding),
+                    // plus a stride over the remaining compound bodies
+                    let is_forwarding = |b: &Expr| matches!(b, Expr::Call(CallName::Fn(_) | CallName::Jet(_), args) if !args.is_empty() && args.iter().all(|a| matches!(a, Expr::Var(_))));
+                    let (calls, others): (Vec<&Expr>, Vec<&Expr>) = compound_bodies.iter().partition(|b| is_forwarding(b));
+                    let stride = (others.len() / 16).max(1);
+                    let chosen: Vec<&Expr> = calls.into_iter().chain(others.into_iter().step_by(stride)).collect();
+                    for r in rhs.iter().take(3) {
+                        for b in &chosen {
+                            out.push(block(vec![let_(p.clone(), s.clone(), r.clone())], Some((*b).clone())));
+                        }
+                    }
+                }
             }
         }
         // --- block with unit statements
@@ -1161,25 +1186,74 @@ pub fn fns_for(e: &Expr, all: &BTreeMap<String, FnDef>) -> Vec<FnDef> {
     names.iter().filter_map(|n| all.get(n).cloned()).collect()
 }
 
-/// The free (witness-bound) variables of a term, with their types recovered from the naming scheme.
+/// Names bound anywhere inside a term (let patterns, match binders).
+pub fn bound_names(e: &Expr, out: &mut BTreeSet<String>) {
+    match e {
+        Expr::Lit(_) | Expr::Witness(_) | Expr::Param(_) | Expr::None | Expr::Var(_) => {}
+        Expr::Paren(x) | Expr::Left(x) | Expr::Right(x) | Expr::Some(x) => bound_names(x, out),
+        Expr::Tuple(v) | Expr::Array(v) | Expr::List(v) => v.iter().for_each(|x| bound_names(x, out)),
+        Expr::Block(stmts, last) => {
+            for s in stmts {
+                match s {
+                    Stmt::Let(p, _, x) => {
+                        let mut n = vec![];
+                        p.names(&mut n);
+                        out.extend(n);
+                        bound_names(x, out);
+                    }
+                    Stmt::Expr(x) => bound_names(x, out),
+                }
+            }
+            if let Some(x) = last {
+                bound_names(x, out);
+            }
+        }
+        Expr::Match(s, a, b) => {
+            bound_names(s, out);
+            for arm in [a, b] {
+                if let MPat::Some(n, _) | MPat::Left(n, _) | MPat::Right(n, _) = &arm.pat {
+                    out.insert(n.clone());
+                }
+                bound_names(&arm.body, out);
+            }
+        }
+        Expr::Call(_, args) => args.iter().for_each(|x| bound_names(x, out)),
+    }
+}
+
+/// The witness-bound variables a term is wrapped with: its free variables and, so that shadowing is real, every
+/// family variable that the term *re-binds* (the outer binding must exist for the inner one to shadow it).
+/// Types are recovered from the naming scheme.
 pub fn free_typed(e: &Expr, universe: &[Ty]) -> Vec<(String, Ty)> {
     let mut fv = BTreeSet::new();
     free_vars(e, &mut vec![], &mut fv);
-    let mut out = vec![];
-    for n in fv {
-        let mut found = None;
+    let family_ty = |n: &str| -> Option<Ty> {
         for t in universe {
             for k in 0..2 {
                 if var_name(t, k) == n {
-                    found = Some(t.clone());
+                    return Some(t.clone());
                 }
             }
         }
-        match found {
-            Some(t) => out.push((n, t)),
+        None
+    };
+    let mut out = vec![];
+    for n in &fv {
+        match family_ty(n) {
+            Some(t) => out.push((n.clone(), t)),
             None => panic!("free variable {n} is not a family variable in {}", render_expr(e)),
         }
     }
+    let mut bound = BTreeSet::new();
+    bound_names(e, &mut bound);
+    for n in bound {
+        if !fv.contains(&n) {
+            if let Some(t) = family_ty(&n) {
+                out.push((n, t));
+            }
+        }
+    }
+    out.sort();
     out
 }
 
